@@ -112,7 +112,9 @@ Sizes(c) == IF c = 32 THEN <<Z, N(70000), W(<<254, 255, 255, 255>>), W(<<0, 0, 0
             ELSE <<Z, N(70000), W(<<254, 255, 255, 255, 255, 255, 255, 255>>), W(<<0, 0, 0, 0, 1, 0, 0, 0>>)>>
 \* st_shndx values with the companion word: ordinary, below/at/inside the reserved ranges, ABS, COMMON, XINDEX
 Shn == << <<0, Z>>, <<1, Z>>, <<65279, Z>>, <<65280, Z>>, <<65281, Z>>, <<65311, Z>>, <<65312, Z>>, <<65343, Z>>,
-          <<65521, Z>>, <<65522, Z>>, <<65535, N(65536)>>, <<65535, W(<<240, 255, 255, 255>>)>>, <<65535, N(65280)>> >>
+          <<65521, Z>>, <<65522, Z>>, <<65535, N(65536)>>, <<65535, W(<<240, 255, 255, 255>>)>>, <<65535, N(65280)>>,
+          \* more SHN_XINDEX entries, so that tables whose LAST symbol carries an extended index occur in every ordering
+          <<65535, N(65537)>>, <<65535, N(70000)>>, <<65535, W(<<1, 0, 0, 128>>)>>, <<65535, N(1)>> >>
 Bts == <<0, 1, 65280, 65532, 65533, 65534, 65535>>
 FSym(i, c) == LET sx == Shn[(i % Len(Shn)) + 1] IN
   Sym((i % 6) + 1, Vals(c)[(i % Len(Vals(c))) + 1], Sizes(c)[(i % Len(Sizes(c))) + 1], (i - 1) % 256, ((i - 1) * 7 + 3 + ((i - 1) \div 256)) % 256,
